@@ -17,5 +17,8 @@ class Match(FilterFunction):
         try:
             # re.fullmatch caches compiled patterns internally
             return bool(re.fullmatch(pattern, string))
-        except (TypeError, re.error):
+        except (TypeError, ValueError, OverflowError, re.error):
+            # Not a string, or not a pattern `re` can compile (a repetition
+            # count that is too large is an OverflowError, incompatible inline
+            # flags are a ValueError).
             return False
